@@ -5,3 +5,8 @@ import Eliot.Properties.C13
 #print axioms Sys.C13.success_stages_serialized
 #print axioms Sys.C13.serializer_failure_contained
 #print axioms Sys.C13.per_kind_serializer
+#print axioms Sys.C13.per_kind_serializer_success
+#print axioms Sys.C13.per_kind_serializer_failure
+#print axioms Sys.C13.logNoSer_healthy_exact
+#print axioms Sys.buildLog_in_current
+#print axioms Sys.buildLog_contextless
